@@ -485,4 +485,7 @@ def match_finding(finding, case):
     if kind == 'source_regex':
         src = case.get('source') or ''
         return all(re.search(p, src, re.S) for p in sig.get('all', [])) and case.get('class') in sig.get('classes', [case.get('class')])
+    if kind == 'class_is':
+        # the oracle class of the failing case is one of the listed classes (each such class is produced by ONE dedicated probe family)
+        return case.get('class') in sig.get('classes', [])
     return False
